@@ -54,6 +54,14 @@ def run(tier, seed):
             emitted += len(s)
             rng.shuffle(s)
             scen += s[: (60 if quick else 600)]
+        # sequences over TWO losses with per-facet boundary dictionaries of different dimension (evaluation order across objects)
+        r = core.run_tlc("Purity", MC % (q(["bnd1d", "bnd2d"]), q([GENS[0]]), 3, "FALSE", "TRUE"), sc, workers=1, tag="Emit_Purity_bnd", timeout=1800)
+        core.tlc_must_pass(r, "Emit_bnd")
+        s = [p for p in r.prints if isinstance(p, dict) and p.get("kind") == "purity"
+             and {c.get("l") for c in p["calls"] if c["kind"] == "eval"} == {"bnd1d", "bnd2d"}]
+        emitted += len(s)
+        rng.shuffle(s)
+        scen += s[: (40 if quick else 400)]
         # generator-only sequences, every generator kind
         for g in GENS:
             for rep in range(4 if quick else 12):
@@ -105,7 +113,7 @@ def run(tier, seed):
                    records_rejected=len(rej), known_finding_hits=n_known, binding_selftests_rejected=nself,
                    rule="MC: Purity.tla all call orders (length <= 3) over losses x batch variants x modes x generator states, ArgsUnchanged; "
                         "witness Impure=TRUE must violate it; replay: for each loss (ODE, stationary, non-stationary, ODE system, stationary and "
-                        "non-stationary PDE systems, tanh MLP) all orders of length L over {plain, parameter batch, observation batch} x "
+                        "non-stationary PDE systems, tanh MLP, and a pair of 1-D / 2-D losses with per-facet boundary dictionaries) all orders of length L over {plain, parameter batch, observation batch} x "
                         "{eager, jit closing over the loss, jit with the loss as an argument, value-and-grad} + draws, sampled by VERIF_SEED; every generator kind drawn eagerly and under jit from "
                         "fresh and re-used states; fingerprints = structure + array bytes + user dictionaries")
         core.write_evidence("C20", tier, seed, "model_checking", cov,
